@@ -62,7 +62,7 @@ def check(g, ev, model, timeout_ms):
     new_atoms = from_y0_event(new_event)
     out["new"] = ev_str(new_atoms)
     lhs = model.prob_cw(TARGET, atoms_for_model(new_atoms))
-    verdict, m, dt = Decider(model.constraints, timeout_ms).differ(lhs, truth)
+    verdict, m, dt = Decider(model.constraints, timeout_ms, model.params).differ(lhs, truth)
     out["queries"], out["secs"], out["verdict"] = 1, dt, verdict
     if verdict == "sat":
         for params in [model.model_to_params(m)] + [grid_params(model.params, s) for s in range(4)]:
